@@ -140,6 +140,15 @@ type InRec struct {
 	Kids []InRec `graphql:",optional"`
 }
 
+// InS has string fields that are neighbours in key order (name, note,
+// suffix, tags), two of them optional.
+type InS struct {
+	Name   string
+	Suffix *string
+	Tags   []string
+	Note   MyString `graphql:",optional"`
+}
+
 type InOpt struct {
 	A *int8
 	B *MyString
@@ -171,7 +180,7 @@ var (
 	textTypes   = []reflect.Type{reflect.TypeOf(TextPair{}), reflect.TypeOf(TextArr{})}
 	structTypes = []reflect.Type{
 		reflect.TypeOf(InA{}), reflect.TypeOf(InB{}), reflect.TypeOf(InC{}), reflect.TypeOf(InD{}),
-		reflect.TypeOf(InRec{}), reflect.TypeOf(InOpt{}),
+		reflect.TypeOf(InRec{}), reflect.TypeOf(InOpt{}), reflect.TypeOf(InS{}),
 	}
 )
 
